@@ -5,9 +5,9 @@ from packaging.version import Version
 
 # ascending pool of public PEP 440 versions with every suffix shape, trailing zeros and an epoch
 _VERSION_TEXTS = [
-    "0", "0.0.1.dev1", "0.0.1", "0.5", "0.9.post2", "1.0.dev0", "1.0a1", "1.0a2.dev3", "1.0b1", "1.0rc1", "1.0", "1.0.post0.dev0",
-    "1.0.post1", "1.0.0.1", "1.0.1", "1.1.dev3", "1.1", "1.2", "1.2.3", "1.2.3.post4", "1.9", "1.10", "2.0a1", "2.0", "2.0.post1",
-    "2.0.1", "2.1", "2.3.1", "2.4.0.post1", "2.5", "3.0", "3.0.1", "3.5", "3.7", "3.8", "3.8.5", "3.9", "3.10", "3.10.4", "3.11",
+    "0", "0.dev0", "0.0.1.dev1", "0.0.1", "0.5", "0.9.post2", "1.0.dev0", "1.0a1", "1.0a2.dev3", "1.0b1", "1.0rc1", "1.0", "1.0.post0.dev0",
+    "1.0.post1", "1.0.post1.dev0", "1.0.0.1", "1.0.1", "1.1.dev3", "1.1", "1.2", "1.2.3", "1.2.3.post4", "1.9", "1.10", "2.0a1", "2.0", "2.0.post0", "2.0.post1",
+    "2.0.1", "2.1", "2.3.1", "2.4.0.post1", "2.5", "3.0rc0", "3.0", "3.0.post0", "3.0.1", "3.5", "3.7", "3.8", "3.8.5", "3.9", "3.10", "3.10.4", "3.11",
     "3.12", "4.0", "10.0", "1!0.5", "1!1.0", "1!2.0.post1", "2!0.1",
 ]
 VERSIONS = sorted({Version(t) for t in _VERSION_TEXTS})
